@@ -153,7 +153,7 @@ def check_counts(ctx, rid, table, seen_counts):
     same variable in the same function is not silently covered."""
     for key, n in seen_counts.items():
         row = table.get(key)
-        if row is not None and n != row.count:
+        if row is not None and n > row.count:
             ctx.violation(rid, "%s:drop(%s):site-count" % key, "", key[0],
                           "the reviewed table row covers %d destruction site(s) of `%s` in this function but %d are "
                           "feasible now: a new site needs review" % (row.count, key[1], n))
